@@ -44,6 +44,28 @@ func runC09(c *Ctx) {
 	ringRule(c, "R-C09-STREAM")
 	nibbleRule(c, "R-C09-COUNTERS")
 
+	c.Group("R-C09-STREAM", "Cache.Get#record", func() {
+		// "least-frequently-accessed" is about recorded accesses: every Get past the nil/closed guard
+		// records the key's primary hash in the read buffer (the same hash it then looks up)
+		g := P.Fn("ristretto", "Cache", "Get")
+		L.Analysed(fname(g))
+		gtb := newTB(g)
+		var push []ssa.Instruction
+		for _, ci := range callsTo(g, "ringBuffer.Push") {
+			a := ci.Common().Args
+			if gtb.T(a[0]).String() == "fld[getBuf](p[0])" && gtb.T(a[1]).String() == "ext[0](call[dyn](fld[keyToHash](p[0]),p[1]))" {
+				push = append(push, ci)
+			}
+		}
+		if len(push) == 0 {
+			L.Fail("R-C09-STREAM", "Cache.Get#record", "Get does not record the access: no c.getBuf.Push(keyHash) with the hash of the key being read - the frequency sketch never sees reads, every resident key looks equally cold", g.Pos())
+			return
+		}
+		inert := cutSet(edgesWhere(g, gtb, "eq(p[0],c[nil])", nil, true), edgesWhere(g, gtb, "call[atomic.Bool.Load](addr(fld[isClosed](p[0])))", nil, true))
+		bad, path := mustPass(entryPos(g), isAnyInstr(push), inert)
+		L.Check(bad == nil, "R-C09-STREAM", "Cache.Get#record", "every Get past the guard pushes keyHash onto getBuf", "a Get can return without recording the access (block path "+pathString(path)+")", instrPos(bad))
+	})
+
 	fn := P.FnOpt("ristretto", "defaultPolicy", "Add")
 	var tb *TB
 	var scanIf *ssa.If    // the arg-min comparison
